@@ -4,7 +4,7 @@
    decision on an external event (Ext/RT.v set_event). *)
 From Coq Require Import ZArith List Bool Arith Lia.
 Import ListNotations.
-From MV Require Import Time.Spec Time.Ord Static.Groups Sched.Timing Sched.Link Sched.GenView Gen.SchedulerFns Ext.RT.
+From MV Require Import Time.Spec Time.Ord Static.Groups Sched.Timing Sched.Guards Sched.Link Sched.GenView Gen.SchedulerFns Sched.SchedTie Ext.RT.
 Open Scope Z_scope.
 
 Lemma act_world d t : (1 <= d)%nat -> act [t] (mkI 1 1 (repeat 0 d)) = t :: repeat 0 (d - 1).
@@ -84,3 +84,7 @@ Proof.
   cbn [fold_left]. rewrite IH. f_equal.
   apply fold_left_ext_in. intros a [dest d]. cbv zeta. rewrite Z.ltb_antisym. destruct (until st <=? thd (act ot d)); reflexivity.
 Qed.
+
+(* the bound of C07 stated of the regenerated get_max_advance itself *)
+Lemma generated_max_advance_le_until st s i : get_max_advance (view st s i) (nexts (s i)) (cur (s i)) (until st) <= until st.
+Proof. rewrite tie_get_max_advance. apply max_advance_le_until. Qed.
